@@ -306,7 +306,7 @@ def run(ctx):
     ctx.not_decided = "decode(encode(m)) == m as a value equality; canonical form of every accepted byte string (beyond the no-discard rule)"
     ctx.rule_text = "CODEC + TAGS + INJ + SIZE"
     cs = Codecs(db)
-    ctx.floor("codec:impls", len(cs.impls), 30, "wire codec implementations found")
+    ctx.floor("codec:impls", len(cs.impls), 20, "wire codec implementations found")
     if MSG not in cs.impls:
         ctx.violated("anchor:Message", "Message codec not found")
         return
@@ -331,7 +331,7 @@ def run(ctx):
                     t = subst(e.ty, sub)
                     if t and t not in PRIM and t != "raw":
                         todo.append(t)
-    ctx.floor("codec:closure", len(closure), 22, "wire types reachable from Message")
+    ctx.floor("codec:closure", len(closure), 15, "wire types reachable from Message")
 
     ARMS = {MSG: arms_message, "radicle::node::Address": arms_address}
     for key in sorted(closure):
@@ -677,7 +677,7 @@ def no_discard(ctx, cs, closure):
                 ctx.violated(k, "%s::decode reads a %s from the wire and discards it: different byte strings decode to the same value, "
                                 "so re-encoding a decoded message need not reproduce the received bytes" % (short_t(key), short_t(ev.ty)),
                              rules.where(fd, bb), fn=fd)
-    ctx.floor("inj:reads", n, 40, "decoder reads checked for use")
+    ctx.floor("inj:reads", n, 25, "decoder reads checked for use")
     # bytes read into a buffer must be looked at (or returned) before the buffer is refilled or dropped
     nr = 0
     for key in sorted(closure):
@@ -697,7 +697,7 @@ def no_discard(ctx, cs, closure):
             else:
                 ctx.violated(k, "%s::decode reads bytes into a buffer and %s without looking at them: different byte strings decode to the same value"
                              % (short_t(key), r), rules.where(fd, bb), fn=fd)
-    ctx.floor("inj:raw-reads", nr, 3, "raw reads checked for use")
+    ctx.floor("inj:raw-reads", nr, 2, "raw reads checked for use")
 
 
 REFILL = re.compile(r"io::Read::(read_exact|read|read_to_end|read_to_string)$|ops::index::(Index|IndexMut)::(index|index_mut)$|"
@@ -965,7 +965,7 @@ def sizes(ctx, cs):
     ctx.floor("size:variants", n, 7, "Message variants sized")
     # ping/pong paddings are only built within their limits
     zsites = [(f, bb) for f, bb in db.call_sites(r"^radicle_node::service::message::ZeroBytes::new$")]
-    ctx.floor("size:ZeroBytes::new", len(zsites), 3, "ZeroBytes::new call sites")
+    ctx.floor("size:ZeroBytes::new", len(zsites), 2, "ZeroBytes::new call sites")
     for f, bb in zsites:
         rk = db.root_of(f)["key"]
         t = f["blocks"][bb]["t"]
